@@ -151,7 +151,11 @@ func (ex *Exec) abort(kind abortKind, format string, args ...interface{}) {
 }
 
 func (ex *Exec) unsupported(format string, args ...interface{}) {
-	msg := fmt.Sprintf(format, args...)
+	panic(pathAbort{abUnsupported, fmt.Sprintf(format, args...) + ex.whereString()})
+}
+
+// whereString names the innermost functions of the current call stack.
+func (ex *Exec) whereString() string {
 	if ex.cur != nil && len(ex.cur.callStack) > 0 {
 		cs := ex.cur.callStack
 		n := len(cs)
@@ -159,9 +163,9 @@ func (ex *Exec) unsupported(format string, args ...interface{}) {
 		if lo < 0 {
 			lo = 0
 		}
-		msg += " [in " + strings.Join(cs[lo:], " > ") + "]"
+		return " [in " + strings.Join(cs[lo:], " > ") + "]"
 	}
-	panic(pathAbort{abUnsupported, msg})
+	return ""
 }
 
 // assume adds c to the path condition; aborts the path if it is constant false.
